@@ -662,6 +662,12 @@ class ContextualInternalServerError(InternalServerError):
                           'path': sys.path}}
         request = self.request
         if request:
+            try:
+                files = request.files
+            except Exception:
+                # reading the uploads parses the body, which may be
+                # incomplete or malformed; the page is shown without them
+                files = {}
             eid['req'] = {'path': request.path,
                           'full_url': request.url,
                           'method': request.method,
@@ -669,7 +675,7 @@ class ContextualInternalServerError(InternalServerError):
                           'url_params': request.args,
                           'cookies': request.cookies,
                           'headers': request.headers,
-                          'files': request.files}
+                          'files': files}
         ret.update(eid)
         return ret
 
